@@ -234,7 +234,33 @@ def handleAudit (case obs : List String) : Option (String × String) :=
     | _, _, _, _ => some bad
   | _ => none
 
+/-- `featc <endpoint timeout ms | -> <caller timeout ms | ->`: a channel of a CLIENT-ONLY build of tonic (side crate
+harness_c09cl: `channel` without `server`; seed C09i) facing a peer that never answers.  The call is cut off at the
+shorter of the two deadlines with CANCELLED "Timeout expired", in every build (tie only; the deadline is
+`Spec.Timeout`'s shorter-of-two on these numbers). -/
+def handleFeatc (e c : String) (obs : List String) : String × String :=
+  let o (s : String) : Option (Option Nat) := if s = "-" then some none else s.toNat?.map some
+  match o e, o c with
+  | some e, some c =>
+    let d : Option Nat := match e, c with
+      | some a, some b => some (min a b)
+      | some a, none => some a
+      | none, some b => some b
+      | none, none => none
+    (match d with
+     | none => bad
+     | some d =>
+       let expected := ["code:1", "msg:timeout", s!"at:{d}"]
+       (String.intercalate " " expected,
+        if obs = ["side-binary-missing"] then "fail:side-binary-missing" else
+        verdict [("cut-off-with-cancelled-timeout-expired", obs.take 2 == expected.take 2),
+                 ("at-the-shorter-deadline", obs.drop 2 == expected.drop 2)]))
+  | _, _ => bad
+
 def handle (case obs : List String) : String × String :=
+  match case with
+  | ["featc", e, c] => handleFeatc e c obs
+  | _ =>
   match handleAudit case obs with
   | some r => r
   | none =>
